@@ -24,6 +24,10 @@ import "fmt"
 
 // EvaluateValue ensures that the given Value is fully evaluated. Lazy lists
 // are spinned and any errors raised by them are returned.
+//
+// The value stays usable afterwards: the lists are not closed. (Closing a
+// lazily decoded list hands it back to a pool, and the next value decoded
+// would take it over while this value still refers to it.)
 func EvaluateValue(v Value) error {
 	switch v.Type() {
 	case TBool, TI8, TDouble, TI16, TI32, TI64, TBinary:
@@ -36,22 +40,16 @@ func EvaluateValue(v Value) error {
 		}
 		return nil
 	case TMap:
-		m := v.GetMap()
-		defer m.Close()
-		return m.ForEach(func(item MapItem) error {
+		return v.GetMap().ForEach(func(item MapItem) error {
 			if err := EvaluateValue(item.Key); err != nil {
 				return err
 			}
 			return EvaluateValue(item.Value)
 		})
 	case TSet:
-		s := v.GetSet()
-		defer s.Close()
-		return s.ForEach(EvaluateValue)
+		return v.GetSet().ForEach(EvaluateValue)
 	case TList:
-		l := v.GetList()
-		defer l.Close()
-		return l.ForEach(EvaluateValue)
+		return v.GetList().ForEach(EvaluateValue)
 	default:
 		return fmt.Errorf("unknown type %s", v.Type())
 	}
